@@ -376,6 +376,35 @@ static void check_alias_pairs(int n, uint64_t& idx, vh::Rng* sampler, int sample
     for (const auto& dst : all) {
         for (const auto& src : all) {
             if (dst.idx.size() != src.idx.size()) {
+                //unequal element counts inside one array: must be rejected without writing anything
+                if (!vh::mine(idx++)) {
+                    continue;
+                }
+                if (sampler != nullptr && sampler->below(sample_mod) != 0) {
+                    continue;
+                }
+                vh::begin_case("alias_pair_unequal", "%s n=%d dst=(%d,%d,%d) src=(%d,%d,%d)", tn, n, dst.a, dst.b, dst.st, src.a, src.b, src.st);
+                vh::Hasher h;
+                h.s("alias_unequal").s(tn).i(n).i(dst.a).i(dst.b).i(dst.st).i(src.a).i(src.b).i(src.st);
+                vh::count(h.get(), true);
+                vh::obs_add("alias_pairs_unequal_count");
+                const std::string d = vh::fmt("%s n=%d x.slice(%d,%d,%d) [%zu elements] = x.slice(%d,%d,%d) [%zu elements]", tn, n, dst.a, dst.b, dst.st, dst.idx.size(), src.a, src.b, src.st, src.idx.size());
+                for (int cs = 0; cs < 2; ++cs) {
+                    A x = x0;
+                    const A& cx = x;
+                    const auto oc = try_call([&] {
+                        if (cs) {
+                            x.slice(dst.a, dst.b, dst.st) = cx.slice(src.a, src.b, src.st);
+                        } else {
+                            x.slice(dst.a, dst.b, dst.st) = x.slice(src.a, src.b, src.st);
+                        }
+                    });
+                    if (oc == Outcome::Returned) {
+                        vh::violation(vh::fmt("C04/alias_count_mismatch_not_rejected/%s", tn), d + (cs ? " (const source)" : "") + " did not throw");
+                    } else if (!bit_equal(x, x0)) {
+                        vh::violation(vh::fmt("C04/alias_count_mismatch_wrote/%s", tn), d + (cs ? " (const source)" : "") + " threw but modified the array");
+                    }
+                }
                 continue;
             }
             if (!vh::mine(idx++)) {
@@ -572,7 +601,7 @@ int main(int argc, char** argv) {
         check_alias_pairs<real_t>(7, idx, &sr, 16);
         check_alias_pairs<real_t>(8, idx, &sr, 16);
     }
-    vh::sample("aliasing pairs: every (dst slice, src slice) of equal count on one array, e.g. n=6 x.slice(0,4,1) = x.slice(2,6,1) and x.slice(5,0,-2) = x.slice(0,6,2)[0:3]");
+    vh::sample("aliasing pairs: every (dst slice, src slice) on one array (equal counts: copy-first semantics; unequal counts: rejected, nothing written), e.g. n=6 x.slice(0,4,1) = x.slice(2,6,1) and x.slice(5,0,-2) = x.slice(0,6,2)[0:3]");
 
     //random big tuples
     const double bigscale = atof(vh::opt("bigscale", "1").c_str());
